@@ -41,12 +41,68 @@ type c11Op struct {
 	C   uint32            `json:"c,omitempty"` // credential / list selector (modulo)
 	N   int               `json:"n,omitempty"` // count or variant
 	M   string            `json:"m,omitempty"` // mode (issue: format; verifyB: NET mode to set for the credential's list first; race: outer op)
-	A   string            `json:"a,omitempty"` // verifyB: age the verifier's record first ("old" | "expired"); race: inner op
+	A   string            `json:"a,omitempty"` // verifyB: age the verifier's record first ("old" | "expired" | "barely" = just past the refresh age | "young" = just short of it); race: inner op
 	L   bool              `json:"l,omitempty"` // revoke / verify: take the most recently issued credential instead of C
 	S   bool              `json:"s,omitempty"` // jsonmut: mutate inside credentialSubject only; issueMulti: one-element array form
 	B   int               `json:"b,omitempty"` // with L: take the credential B places before the most recent one
 	E   []int             `json:"e,omitempty"` // issueMulti: status entries; n > 0 = the slot of the n-th last credential, -n = that slot under purpose "suspension", 0 = an entry of another status type
 	Mut *jsonmut.Mutation `json:"mut,omitempty"`
+	X   *c11ExtShape      `json:"x,omitempty"` // extIssue: which optional members the external list carries and how it is written (nil = the plain one)
+}
+
+// c11ExtShape: the optional members and representational freedoms of an EXTERNAL StatusList2021Credential (the node's own
+// lists always have one fixed shape; a foreign issuer's need not). The zero value is the shape the node itself produces.
+type c11ExtShape struct {
+	Exp          string `json:"exp,omitempty"`          // expirationDate: "" = a day ahead, "none" = member absent (it is optional), "short" = ten minutes ahead (before the refresh age is reached)
+	Issued       string `json:"issued,omitempty"`       // issuanceDate: "" = a minute ago, "old" = 90 days ago (a list that is signed once and served for months)
+	SubjectArray bool   `json:"subjectArray,omitempty"` // credentialSubject written as a one-element array (same JSON-LD meaning, same proof)
+	ProofArray   bool   `json:"proofArray,omitempty"`   // proof written as a one-element array
+	TypesRev     bool   `json:"typesRev,omitempty"`     // type written as [StatusList2021Credential, VerifiableCredential]
+	NoID         bool   `json:"noId,omitempty"`         // the list credential has no id (optional in the data model; a verifier may insist on one: judged as may-accept)
+}
+
+func (s *c11ExtShape) suffix() string {
+	if s == nil || *s == (c11ExtShape{}) {
+		return ""
+	}
+	out := "-e" + s.Exp + "-i" + s.Issued
+	for _, f := range []struct {
+		on bool
+		n  string
+	}{{s.SubjectArray, "-sa"}, {s.ProofArray, "-pa"}, {s.TypesRev, "-tr"}, {s.NoID, "-noid"}} {
+		if f.on {
+			out += f.n
+		}
+	}
+	return out
+}
+
+// withID: the same shape with an id on the list credential (multi-entry scenarios need lists every verifier takes).
+func (s *c11ExtShape) withID() *c11ExtShape {
+	if s == nil {
+		return nil
+	}
+	c := *s
+	c.NoID = false
+	if c == (c11ExtShape{}) {
+		return nil
+	}
+	return &c
+}
+
+func c11GenExtShape(t *rapid.T) *c11ExtShape {
+	s := c11ExtShape{
+		Exp:          rapid.SampledFrom([]string{"", "", "none", "none", "none", "short"}).Draw(t, "exp"),
+		Issued:       rapid.SampledFrom([]string{"", "", "old"}).Draw(t, "issued"),
+		SubjectArray: rapid.IntRange(0, 3).Draw(t, "subjectArray") == 0,
+		ProofArray:   rapid.IntRange(0, 3).Draw(t, "proofArray") == 0,
+		TypesRev:     rapid.IntRange(0, 3).Draw(t, "typesRev") == 0,
+		NoID:         rapid.IntRange(0, 7).Draw(t, "noId") == 0,
+	}
+	if s == (c11ExtShape{}) {
+		return nil
+	}
+	return &s
 }
 
 type c11Case struct {
@@ -92,12 +148,22 @@ func c11Gen(t *rapid.T) c11Case {
 		case "sc-external":
 			// a credential of an EXTERNAL issuer whose status list (built and signed by the harness, any size the spec
 			// allows and some it does not) is served by the NET stub: look, revoke, refresh, look again
-			ext := c11Op{K: "extIssue", N: rapid.IntRange(0, len(c11ExtSizes)-1).Draw(t, "size"), C: uint32(rapid.IntRange(0, c11ExtIndexKinds-1).Draw(t, "index"))}
+			// (the list in any of its optional-member shapes; the verifier's record aged to either side of the refresh age)
+			ext := c11Op{K: "extIssue", N: rapid.IntRange(0, len(c11ExtSizes)-1).Draw(t, "size"), C: uint32(rapid.IntRange(0, c11ExtIndexKinds-1).Draw(t, "index")), X: c11GenExtShape(t)}
 			ops := []c11Op{ext}
-			if rapid.Bool().Draw(t, "lookFirst") {
+			if rapid.IntRange(0, 3).Draw(t, "lookFirst") > 0 {
 				ops = append(ops, c11Op{K: "verifyB", L: true, M: "honest"})
 			}
-			return append(ops, c11Op{K: "extRevoke", L: true}, c11Op{K: "verifyB", L: true, M: "honest", A: "old"})
+			ops = append(ops, c11Op{K: "extRevoke", L: true})
+			if rapid.IntRange(0, 2).Draw(t, "lookYoung") == 0 {
+				// not yet due: the verifier may still answer from its record
+				ops = append(ops, c11Op{K: "verifyB", L: true, M: "honest", A: "young"})
+			}
+			ops = append(ops, c11Op{K: "verifyB", L: true, M: "honest", A: rapid.SampledFrom([]string{"old", "old", "barely", "barely", "expired"}).Draw(t, "age")})
+			if rapid.Bool().Draw(t, "lookAgain") {
+				ops = append(ops, c11Op{K: "verifyB", L: true})
+			}
+			return ops
 		case "sc-multi":
 			// a credential with 2-3 status entries naming the slots of fresh credentials on the same list, on different
 			// pages of one issuer, on lists of different issuers or on an external list; one of the named slots is
@@ -113,7 +179,7 @@ func c11Gen(t *rapid.T) c11Case {
 				case shape == "pages" && j > 0:
 					ops = append(ops, c11Op{K: "jump", I: i0, N: 0}, c11Op{K: "entry", I: i0, N: 1}, c11Op{K: "issue", I: i0, M: "ldp"})
 				case shape == "external" && j == n-1:
-					ops = append(ops, c11Op{K: "extIssue", N: rapid.SampledFrom([]int{0, 2, 4}).Draw(t, "size"), C: uint32(rapid.SampledFrom([]int{0, 1, 6}).Draw(t, "index"))})
+					ops = append(ops, c11Op{K: "extIssue", N: rapid.SampledFrom([]int{0, 2, 4}).Draw(t, "size"), C: uint32(rapid.SampledFrom([]int{0, 1, 6}).Draw(t, "index")), X: c11GenExtShape(t).withID()})
 				default:
 					ops = append(ops, c11Op{K: "issue", I: i0, M: "ldp"})
 				}
@@ -171,7 +237,7 @@ func c11Gen(t *rapid.T) c11Case {
 		case "verifyB":
 			op.C = rapid.Uint32().Draw(t, "c")
 			op.M = rapid.SampledFrom(c11NetModes).Draw(t, "m")
-			op.A = rapid.SampledFrom([]string{"", "", "old", "old", "expired"}).Draw(t, "age")
+			op.A = rapid.SampledFrom([]string{"", "", "old", "old", "expired", "barely", "young"}).Draw(t, "age")
 			mut(t, &op)
 		case "serve":
 			op.C = rapid.Uint32().Draw(t, "c")
@@ -241,6 +307,7 @@ type c11List struct {
 	floor  int          // indexes <= floor were skipped by the harness (jump) and may not be handed out either
 	bits   map[int]bool // revoked indexes (truth)
 	size   int          // external lists only: length of the bitstring in bytes
+	shape  c11ExtShape  // external lists only: optional members / representation
 }
 
 // external status lists: sizes in bytes (the node's own lists are exactly 16 kB; the spec says "at least 16KB")
@@ -382,12 +449,10 @@ func (r *c11Run) statusEntry(cred *vc.VerifiableCredential) (revocation.StatusLi
 
 func (r *c11Run) genuine(url string) (int, []byte) {
 	if e := r.ext[url]; e != nil {
-		now := time.Now()
-		cred, err := r.f.signList(c11NIssuers, url, revocation.StatusPurposeRevocation, r.truthBits(url), now.Add(-time.Minute), now.Add(24*time.Hour))
+		b, err := r.f.signListShaped(c11NIssuers, url, revocation.StatusPurposeRevocation, r.truthBits(url), e.shape)
 		if err != nil {
 			r.x.Fatalf("sign external list: %v", err)
 		}
-		b, _ := json.Marshal(cred)
 		return 200, b
 	}
 	didStr, page, ok := c11ParseListURL(url)
@@ -428,14 +493,23 @@ func (r *c11Run) handle(url string) (int, []byte, error) {
 		r.x.Fatalf("genuine list of %s unreadable by the oracle's parser: %s", url, gen)
 	}
 	l := r.anyList(url)
-	switch mode {
-	case "honest":
+	// honest: the genuine list is served as it is (also the fallback of forgery modes that have nothing to change)
+	honest := func() (int, []byte, error) {
+		sv.mode, sv.mustReject = "honest", false
 		sv.body, sv.view = gen, gview
 		if len(gview.Bits) < (revocation.C11MaxBitstringIndex+1)/8 {
 			// shorter than the spec's minimum of 16 kB: a verifier may refuse it (judged as may-accept)
 			sv.mode = "honest-short"
 		}
+		if e := r.ext[url]; e != nil && e.shape.NoID {
+			// no id on the list credential: optional in the data model, a verifier may insist on one (judged as may-accept)
+			sv.mode = "honest-noid"
+		}
 		return 200, gen, nil
+	}
+	switch mode {
+	case "honest":
+		return honest()
 	case "http500":
 		sv.mustReject = true
 		return 500, []byte(`{"title":"boom"}`), nil
@@ -480,9 +554,7 @@ func (r *c11Run) handle(url string) (int, []byte, error) {
 		}
 		if string(bits) == string(gview.Bits) {
 			// nothing to change (no revocations / every slot revoked): serve as is
-			sv.mode = "honest"
-			sv.body, sv.view = gen, gview
-			return 200, gen, nil
+			return honest()
 		}
 		subj()["encodedList"] = c11EncodeList(bits)
 		sv.mustReject = true
@@ -507,9 +579,7 @@ func (r *c11Run) handle(url string) (int, []byte, error) {
 	case "purpose":
 		// the issuer itself publishes a list with another purpose at this URL (validly signed); all handed-out slots set
 		if l == nil {
-			sv.mode = "honest"
-			sv.body, sv.view = gen, gview
-			return 200, gen, nil
+			return honest()
 		}
 		bits := make([]byte, len(gview.Bits))
 		for i := range l.handed {
@@ -537,9 +607,7 @@ func (r *c11Run) handle(url string) (int, []byte, error) {
 			out, d, ok = jsonmut.Apply(doc, *op.Mut)
 		}
 		if !ok {
-			sv.mode = "honest"
-			sv.body, sv.view = gen, gview
-			return 200, gen, nil
+			return honest()
 		}
 		b := jsonmut.Encode(out)
 		sv.body, sv.view = b, c11ViewOf(b)
@@ -1057,6 +1125,11 @@ func (r *c11Run) opVerifyB(op c11Op) bool {
 		if pre != nil && !pre.stale {
 			x.Class("verifyB:download-though-fresh")
 		}
+		if pre != nil && pre.stale && c.ext {
+			if e := r.ext[c.url]; e != nil && e.shape.Exp == "none" {
+				x.Class("verifyB:due-refresh-of-list-without-expirationDate")
+			}
+		}
 		accepted := row != nil && row.Raw != "" && sv.body != nil && c11SameJSON(row.Raw, sv.body)
 		switch {
 		case sv.mustReject:
@@ -1195,15 +1268,40 @@ func (r *c11Run) ageB(url, mode string) {
 		return
 	}
 	var err error
+	maxAge := int64(revocation.C11MaxAgeExternal / time.Second)
+	if mode == "expired" {
+		// only a record that has an expiry can pass it; a list without expirationDate can only grow old
+		res := r.f.dbB.Exec("UPDATE status_list_credential SET expires = ? WHERE subject_id = ? AND expires IS NOT NULL", time.Now().Add(-time.Hour).Unix(), url)
+		r.x.NoErr(res.Error, "ageB")
+		if res.RowsAffected == 0 {
+			mode = "old"
+			r.x.Class("ageB:expired->old(no-expiry)")
+		}
+	}
 	switch mode {
-	case "old":
-		err = r.f.dbB.Exec("UPDATE status_list_credential SET created_at = created_at - ? WHERE subject_id = ?", int64(revocation.C11MaxAgeExternal/time.Second)+100, url).Error
-	default:
-		err = r.f.dbB.Exec("UPDATE status_list_credential SET expires = ? WHERE subject_id = ?", time.Now().Add(-time.Hour).Unix(), url).Error
+	case "expired":
+	case "young":
+		// just short of the refresh age (two minutes to go): nothing is due because of age. Applied only to a record that
+		// is not due for another reason (the model keeps one flag).
+		if cc.stale {
+			return
+		}
+		err = r.f.dbB.Exec("UPDATE status_list_credential SET created_at = ? WHERE subject_id = ?", time.Now().Unix()-maxAge+120, url).Error
+		r.x.NoErr(err, "ageB")
+		r.x.Class("ageB:young")
+		return
+	case "barely":
+		// five seconds past the refresh age
+		err = r.f.dbB.Exec("UPDATE status_list_credential SET created_at = ? WHERE subject_id = ? AND created_at > ?", time.Now().Unix()-maxAge-5, url, time.Now().Unix()-maxAge-5).Error
+	default: // "old"
+		err = r.f.dbB.Exec("UPDATE status_list_credential SET created_at = created_at - ? WHERE subject_id = ?", maxAge+100, url).Error
 	}
 	r.x.NoErr(err, "ageB")
 	cc.stale = true
 	r.x.Class("ageB:" + mode)
+	if row, rerr := c11LoadRow(r.f.dbB, url); rerr == nil && row != nil && row.Expires == nil {
+		r.x.Class("ageB:" + mode + ":record-without-expiry")
+	}
 }
 
 // opAgeIssuer replaces the issuer node's stored list by one that looks as if it had been signed long ago: same content,
@@ -1227,11 +1325,32 @@ func (r *c11Run) opAgeIssuer(op c11Op) {
 // whose status entry is at / around a boundary of that list.
 func (r *c11Run) opExtIssue(op c11Op) {
 	size := c11ExtSizes[op.N%len(c11ExtSizes)]
-	url := c11ExtBase + strconv.Itoa(size)
+	url := c11ExtBase + strconv.Itoa(size) + op.X.suffix()
 	l := r.ext[url]
 	if l == nil {
 		l = &c11List{url: url, issuer: c11NIssuers, page: 1, handed: map[int]bool{}, floor: -1, bits: map[int]bool{}, size: size}
+		if op.X != nil {
+			l.shape = *op.X
+		}
 		r.ext[url] = l
+		sh := l.shape
+		exp, iss := sh.Exp, sh.Issued
+		if exp == "" {
+			exp = "day"
+		}
+		if iss == "" {
+			iss = "recent"
+		}
+		r.x.Classf("ext:list:expirationDate=%s", exp)
+		r.x.Classf("ext:list:issuanceDate=%s", iss)
+		for _, fl := range []struct {
+			on bool
+			n  string
+		}{{sh.SubjectArray, "subject-as-array"}, {sh.ProofArray, "proof-as-array"}, {sh.TypesRev, "types-reversed"}, {sh.NoID, "no-id"}} {
+			if fl.on {
+				r.x.Class("ext:list:" + fl.n)
+			}
+		}
 	}
 	idx := c11ExtIndex(int(op.C)%c11ExtIndexKinds, size*8)
 	if idx < 0 {
@@ -1289,6 +1408,9 @@ func (r *c11Run) opIssueMulti(op c11Op) {
 		}
 		if c.ext && (r.ext[c.url].size < (revocation.C11MaxBitstringIndex+1)/8 || c.idx >= r.ext[c.url].size*8) {
 			continue
+		}
+		if c.ext && r.ext[c.url].shape.NoID {
+			continue // a list the verifier may refuse: the soft-fail early exit would blur the expectation
 		}
 		pool = append(pool, c)
 	}
